@@ -222,6 +222,9 @@ def run_async_kind(cfg, cancels, stop_frames=None, budget=40000, fake_kernel=Non
                 if d["cmd"] == simbus.FPWR and d["ado"] == 0x120 and len(d["data"]) >= 2 \
                         and 100 <= d["adp"] < 100 + cfg["nterm"]:
                     rec.add(t="al", term=d["adp"] - 99, v=d["data"][0] | d["data"][1] << 8)
+            if cfg.get("slow_after_cancel") is not None and info["cancel_iters"]:
+                # a terminal (or the segment) answers slowly during the clean-up: the answers DO come
+                return [("return", cfg["slow_after_cancel"])]
             return [("return", cfg["delay"])]
 
         saved = E.monotonic
